@@ -36,7 +36,8 @@ META = {
     },
     'assumptions': [
         'numpy scalar division: x / 0 is +-inf or nan with a warning, never an exception (Python floats would raise: tracked per value)',
-        'no text lines, or horizontal ones: the de-skew angle is 0 and rotate_page_layout is the identity (non-zero de-skew runs through shapely / cv2: outside)',
+        'the de-skew angle is 0 (no text lines, or horizontal ones), or (deskew tasks) an arbitrary non-zero angle with the rotation modelled as an abstract invertible map: '
+        'rotating by -a yields arbitrary boxes, rotating those by +a yields the original polygons (what shapely.affinity computes numerically is outside)',
         'DBSCAN(min_samples=1) on 1-D points = connected components of the relation |a - b| <= eps, labels in order of first occurrence; '
         'it raises ValueError for an empty input and for eps <= 0 (sklearn contract)',
         'coordinates are exact reals',
@@ -59,6 +60,9 @@ def tasks(tier):
     for yp in (YP if tier != 'quick' else YP[1:5]):
         ts.append({'mode': 'smart', 'n': 3, 'ypat': yp, 'split': 32})
         ts.append({'mode': 'smart', 'n': 3, 'xpat': yp, 'split': 32})
+    # non-zero de-skew: the rotation into the de-skewed frame and back is an abstract invertible map (see body)
+    ts.append({'mode': 'smart', 'n': 2, 'deskew': True, 'split': 32})
+    ts.append({'mode': 'smart', 'n': 3, 'deskew': True, 'ypat': YP[1], 'split': 32})
     for n in range(0, 4):
         t = {'mode': 'naive', 'n': n}
         if n >= 3:
@@ -143,7 +147,7 @@ def run_task(task, patches=None):
     counter = {'calls': 0}
 
     def case(m_, **kw):
-        c = {'mode': mode, 'n': n, 'concave': bool(task.get('concave')), 'boxes': [[mv(m_, S(v)) for v in (x0[i], y0[i], x1[i], y1[i])] for i in range(n)],
+        c = {'mode': mode, 'n': n, 'concave': bool(task.get('concave')), 'deskew': bool(task.get('deskew')), 'boxes': [[mv(m_, S(v)) for v in (x0[i], y0[i], x1[i], y1[i])] for i in range(n)],
              'param': mv(m_, S(param)), 'width': mv(m_, S(width)), 'denom': mv(m_, S(denom))}
         c.update(kw)
         return c
@@ -178,12 +182,40 @@ def run_task(task, patches=None):
             return real_dao(self, vertical)
         mod.CoupledRegions.divide_and_order = dao
 
+        ang = z3.Real('deskew_angle')
+
         def body():
             counter['calls'] = 0
             core.assume(z3.And(param > 0, param < 1))
             pl = build()
             before = list(pl.regions)
             polys = [r.polygon for r in before]
+            if task.get('deskew'):
+                # pages with slanted lines: the mean baseline tilt is some non-zero angle; rotating by -angle yields SOME polygons (fresh
+                # symbolic boxes), rotating those by +angle yields the originals again (the rotation is invertible); anything else is garbage
+                core.assume(ang != 0)
+                rotated = {}
+                back = {}
+                for i, pg in enumerate(polys):
+                    vs = [z3.Real('rot%d_%s' % (i, k)) for k in ('x0', 'y0', 'x1', 'y1')]
+                    core.assume(z3.And(vs[0] <= vs[2], vs[1] <= vs[3], vs[0] >= -2000, vs[2] <= 2000, vs[1] >= -2000, vs[3] <= 2000))
+                    if task.get('ypat'):
+                        core.assume(z3.And(vs[1] == task['ypat'][i][0], vs[3] == task['ypat'][i][1]))
+                    rp = symnp.A([S(vs[0]), S(vs[1]), S(vs[2]), S(vs[1]), S(vs[2]), S(vs[3]), S(vs[0]), S(vs[3])], (4, 2))
+                    rotated[id(pg)] = rp
+                    back[id(rp)] = pg
+
+                def rot_poly(polygon, angle):
+                    a = z3.simplify(core.lift(angle) + ang)
+                    b = z3.simplify(core.lift(angle) - ang)
+                    if id(polygon) in rotated and z3.is_rational_value(a) and a.as_fraction() == 0:
+                        return rotated[id(polygon)]
+                    if id(polygon) in back and z3.is_rational_value(b) and b.as_fraction() == 0:
+                        return back[id(polygon)]
+                    return symnp.A(['garbage'] * 8, (4, 2))
+                mod.SmartRegionSorter.get_rotation = staticmethod(lambda lines: S(ang))
+                mod.SmartRegionSorter.rotate_polygon = staticmethod(rot_poly)
+                mod.SmartRegionSorter.rotate_line = staticmethod(rot_poly)
             sorter = object.__new__(mod.SmartRegionSorter)
             sorter.intersect_param = S(param)
             out = sorter.process_page(None, pl)
@@ -217,8 +249,11 @@ def run_task(task, patches=None):
                    lambda m_: case(m_, got=[r.id for r in after]))
             continue
         if any(r.polygon is not q for r, q in zip(before, polys)) or any(r.transcription != 'text %s' % r.id[1:] for r in before):
-            H.fail(K + 'region-changed', 'a region was modified by sorting', lambda m_: case(m_))
-        H.witness(lambda m_: case(m_, expect=[r.id for r in after]), extra=_margins(x0, x1, y0, y1, n))
+            # prefer a counterexample with proper boxes away from the origin, stacked in input order (replayed through the real rotation)
+            rb = [z3.And(x0[i] >= 10, x1[i] - x0[i] >= 20, y1[i] - y0[i] >= 20, y0[i] >= 10) for i in range(n)] + [y0[i] >= y1[i - 1] + 20 for i in range(1, n)]
+            H.fail(K + 'region-changed', 'a region was modified by sorting', lambda m_: case(m_), robust=rb)
+        if not task.get('deskew'):       # (the real de-skew needs real slanted lines: replayed for counterexamples only)
+            H.witness(lambda m_: case(m_, expect=[r.id for r in after]), extra=_margins(x0, x1, y0, y1, n))
     return H.result()
 
 
